@@ -61,7 +61,13 @@ def gen_case(rng):
         a["spec"] += f";e={K}"
         a["argv"] = [a["flag"], f"{a['name']}={a['spec']}"]
         ads1[0] = a
-    wild = rng.random() < 0.25
+    dup_names = False
+    if not pair_adapters and len(ads1) >= 2 and all(a["kind"] in ("a", "g", "a$", "g^", "aX", "gX") for a in ads1[:2]) and rng.random() < 0.2:
+        # two adapters may carry the same name (also by accident: an unnamed adapter is called "1"); each keeps its own statistics
+        ads1[1]["name"] = ads1[0]["name"]
+        ads1[1]["argv"] = [ads1[1]["flag"], f"{ads1[1]['name']}={ads1[1]['spec']}"]
+        dup_names = True
+    wild = rng.random() < 0.25 and not dup_names
     if wild:
         # put N wildcards into some adapters (effective length < length)
         for a in ads1 + ads2:
@@ -92,7 +98,7 @@ def gen_case(rng):
     recs1, recs2 = G.gen_reads(rng, rng.randint(20, 50), paired, ads1 if (ads1 or not revcomp) else ads2, ads2 or ads1, maxlen=35, revcomp_some=revcomp, nruns=True,
                                qual_profile="high", lower=rng.random() < 0.2)
     return dict(paired=paired, ads1=ads1, ads2=ads2, opts=opts, rate=float(rate), times=times, action=action, revcomp=revcomp,
-                pair_adapters=pair_adapters, cores=cores, recs1=recs1, recs2=recs2 if paired else None, wild=wild)
+                pair_adapters=pair_adapters, cores=cores, recs1=recs1, recs2=recs2 if paired else None, wild=wild, dup_names=dup_names)
 
 
 def new_tally():
@@ -108,7 +114,7 @@ def add_single(t, m):
         t["adj"][b if b in ("A", "C", "G", "T") else ""] += 1
 
 
-def tally_matches(groups, side, ranks=None):
+def tally_matches(groups, side, ranks=None, by_sequence=False):
     """ranks: for --pair-adapters, (names of the R1 adapters by rank, names of the R2 adapters by rank, side whose
     sequences are all distinct). The two adapters applied to a pair have the same rank, so when one side lists the same
     sequence twice the name to count the match under is taken from the partner's rank, not from the match object."""
@@ -136,7 +142,7 @@ def tally_matches(groups, side, ranks=None):
         if rc:
             n_rc += 1
         for m in ms:
-            t = tally[m["name"]]
+            t = tally[(m["name"], m["aseq"].upper()) if by_sequence and "aseq" in m and m["name"] in by_sequence else m["name"]]
             t["total"] += 1
             if m["kind"] == "linked":
                 if m["front"] is not None:
@@ -203,7 +209,11 @@ def check_side(ctx, c, case, rep_list, tally, side, viol):
         viol("adapter-list", f"report lists adapters {[ar['name'] for ar in rep_list]} for read {side}, given {names}")
         return
     for ar in rep_list:
-        t = tally.get(ar["name"], new_tally())
+        key = ar["name"]
+        if c.get("dup_names") and side == 1 and names.count(ar["name"]) > 1:
+            end_ = ar["five_prime_end"] or ar["three_prime_end"]
+            key = (ar["name"], end_["sequence"].upper()) if end_ else key
+        t = tally.get(key, new_tally())
         n_end_matches = 0
         for endname, key in (("five_prime_end", "five"), ("three_prime_end", "three")):
             end = ar[endname]
@@ -292,7 +302,9 @@ def one_case(ctx, k):
                 ctx.count("pair_adapter_runs_with_a_shared_adapter")
         if c["paired"] and not c["ads1"]:
             ctx.count("paired_runs_with_adapters_for_r2_only" + ("_and_revcomp" if c["revcomp"] else ""))
-        t1, wa1, nrc = tally_matches(groups, 1, ranks)
+        t1, wa1, nrc = tally_matches(groups, 1, ranks, by_sequence={c["ads1"][0]["name"]} if c.get("dup_names") else False)
+        if c.get("dup_names"):
+            ctx.count("runs_with_two_adapters_of_one_name")
         check_side(ctx, c, case, rep["adapters_read1"], t1, 1, viol)
         if (rep["read_counts"]["read1_with_adapter"] or 0) != wa1:
             viol("with-adapter", f"read1_with_adapter={rep['read_counts']['read1_with_adapter']}, {wa1} reads had a match applied")
@@ -301,13 +313,13 @@ def one_case(ctx, k):
             check_side(ctx, c, case, rep["adapters_read2"] or [], t2, 2, viol)
             if (rep["read_counts"]["read2_with_adapter"] or 0) != wa2:
                 viol("with-adapter", f"read2_with_adapter={rep['read_counts']['read2_with_adapter']}, {wa2} reads had a match applied")
-        if "=== Summary ===" in run.out:
+        if "=== Summary ===" in run.out and not c.get("dup_names"):
             check_text(ctx, c, run.out, t1, 1, viol)
             if c["paired"]:
                 check_text(ctx, c, run.out, t2, 2, viol)
         if c["revcomp"] and (rep["read_counts"]["reverse_complemented"] or 0) != nrc:
             viol("reverse-complemented", f"reverse_complemented={rep['read_counts']['reverse_complemented']}, {nrc} reads used the reverse complement")
-        ctx.sample(dict(argv=argv, tally={n: dict(total=t["total"], five=len(t["five"]), three=len(t["three"])) for n, t in t1.items()}), limit=4)
+        ctx.sample(dict(argv=argv, tally={str(n): dict(total=t["total"], five=len(t["five"]), three=len(t["three"])) for n, t in t1.items()}), limit=4)
     finally:
         shutil.rmtree(d, ignore_errors=True)
 
